@@ -13,7 +13,7 @@ def negative_configs(ck):
     r1 = vlib.tlc("MCFmtLayout", "neg1.cfg", files={"neg1.cfg": neg1}, workers=2, timeout=600)
     if r1.violated != "Idempotent":
         raise vlib.InfraError("negative config (line break after every node without trailing-space info) was not rejected by Idempotent")
-    neg2 = base.replace("INVARIANTS TypeOK Idempotent FmtKeepsTokens", "INVARIANTS TypeOK NoInventedSeparation")
+    neg2 = base.replace("INVARIANTS TypeOK Idempotent FmtKeepsTokens FmtKeepsMust", "INVARIANTS TypeOK NoInventedSeparation")
     r2 = vlib.tlc("MCFmtLayout", "neg2.cfg", files={"neg2.cfg": neg2}, workers=2, timeout=600)
     if r2.violated != "NoInventedSeparation":
         raise vlib.InfraError("the layout model as coded should admit the known forced-line-break finding (NoInventedSeparation)")
